@@ -395,6 +395,56 @@ func c16Machine(t *rapid.T, kind string) {
 				feat["reopen-after-save"] = true
 			}
 		},
+		"externalChange": func(t *rapid.T) {
+			// another instance on the same backing store (a standby process, an operator's tool)
+			// changes the session's state; after Refresh - which is what RefreshOnLogon is for - this
+			// instance continues from that state, for reads and for writes
+			if !persistent {
+				t.Skip("memory store")
+			}
+			s := suts[rapid.IntRange(0, len(suts)-1).Draw(t, "s")]
+			st2, err := s.factory.Create(s.id)
+			if err != nil {
+				fail("reopen-error", "second instance: %v after %v", err, trace)
+			}
+			what := rapid.SampledFrom([]string{"reset", "reset", "set-sender", "set-target", "save"}).Draw(t, "what")
+			trace = append(trace, fmt.Sprintf("%d.External(%s)+Refresh", idx(suts, s), what))
+			switch what {
+			case "reset":
+				if err := st2.Reset(); err != nil {
+					fail("op-error", "external Reset: %v after %v", err, trace)
+				}
+				s.model = newStoreModel()
+				s.model.created = st2.CreationTime()
+			case "set-sender":
+				v := s.model.sender + rapid.IntRange(0, 50).Draw(t, "up")
+				if err := st2.SetNextSenderMsgSeqNum(v); err != nil {
+					fail("op-error", "external SetNextSender: %v after %v", err, trace)
+				}
+				s.model.sender = v
+			case "set-target":
+				v := rapid.IntRange(1, s.model.target+50).Draw(t, "v")
+				if err := st2.SetNextTargetMsgSeqNum(v); err != nil {
+					fail("op-error", "external SetNextTarget: %v after %v", err, trace)
+				}
+				s.model.target = v
+			case "save":
+				seq := s.model.lastSaved + 1
+				msg := []byte(fmt.Sprintf("external-%d", seq))
+				if err := st2.SaveMessage(seq, msg); err != nil {
+					fail("op-error", "external SaveMessage: %v after %v", err, trace)
+				}
+				s.model.msgs[seq] = msg
+				s.model.lastSaved = seq
+			}
+			if err := st2.Close(); err != nil {
+				fail("op-error", "external Close: %v after %v", err, trace)
+			}
+			if err := s.st.Refresh(); err != nil {
+				fail("op-error", "Refresh after an external change: %v after %v", err, trace)
+			}
+			feat["external-change-then-refresh"] = true
+		},
 		"secondInstance": func(t *rapid.T) {
 			if !persistent {
 				t.Skip("memory store")
